@@ -365,7 +365,49 @@ def _bi_sorted(E, args, kwargs, st, node):
         raise EngineError("sorted over a sequence of symbolic length")
     if all(not is_z3(x) and not isinstance(x, (tuple, ListV)) for x in items) and "key" not in kwargs:
         return [(st, ListV(sorted(items, reverse=bool(kwargs.get("reverse", False)))))]
-    raise EngineError("sorted() over symbolic items not modelled here")
+    if len(items) > 4:
+        raise EngineError("sorted() over more than 4 symbolic items not modelled here")
+    # symbolic keys over a short static list: fork over the permutations that a stable sort can
+    # produce (ties keep the original order, also with reverse=True)
+    import itertools
+    from .engine import Raised
+    key = kwargs.get("key")
+    rev = kwargs.get("reverse", False)
+    if not isinstance(rev, bool):
+        raise EngineError("sorted(reverse=<symbolic>)")
+    results = [(st, [])]
+    for it in items:
+        nxt = []
+        for s, ks in results:
+            if isinstance(ks, Raised):
+                nxt.append((s, ks))
+            elif key is None:
+                nxt.append((s, ks + [it]))
+            else:
+                for s2, kv in E.call(key, [it], {}, s, node):
+                    nxt.append((s2, kv if isinstance(kv, Raised) else ks + [kv]))
+        results = nxt
+    out = []
+    ar = Arith(lambda *a: None)
+    for s, ks in results:
+        if isinstance(ks, Raised):
+            out.append((s, ks))
+            continue
+        for perm in itertools.permutations(range(len(items))):
+            conds = []
+            for a, b in zip(perm, perm[1:]):
+                ka, kb = ks[a], ks[b]
+                if isinstance(ka, tuple):
+                    lt = E.lex_compare('>' if rev else '<', ka, kb)
+                else:
+                    lt = ar.compare('>' if rev else '<', ka, kb)
+                conds.append(b_or(lt, b_and(equal(ka, kb), a < b)))
+            c = b_and(*conds) if conds else True
+            s2 = s.assume(c) if c is not True else s
+            if c is False or not E.feasible(s2):
+                continue
+            out.append((s2, ListV([items[i] for i in perm])))
+    return out
 
 
 def _bi_isinstance(E, args, kwargs, st, node):
@@ -677,6 +719,14 @@ def write_recv(E, callnode, newval, st):
 def construct(E, cref, args, kwargs, st, node):
     from .engine import FuncV, Raised
     clsname = cref.node.name
+    for b in cref.node.bases:
+        bn = b.id if isinstance(b, ast.Name) else (b.attr if isinstance(b, ast.Attribute) else None)
+        if bn in ("IntEnum", "Enum"):
+            real = getattr(cref.mod.pymod, clsname)
+            vals = [int(m) for m in real]
+            (x,) = args
+            ok = b_or(*[equal(x, v) for v in vals])
+            return E.partial(st, node, 'ValueError', ok, x)
     # exception classes of the repository
     for b in cref.node.bases:
         bn = b.id if isinstance(b, ast.Name) else (b.attr if isinstance(b, ast.Attribute) else None)
